@@ -1,28 +1,727 @@
-//! C14 — (stub; to be implemented, see DESIGN.md section 5 and HARNESS.md)
+//! C14 — delegating derives (Deref, DerefMut, AsRef, AsMut, Index, IndexMut, IntoIterator) expose exactly the
+//! selected field.
+//!
+//! Every case is one struct with 1..4 fields (neighbouring fields mostly of the same type) deriving a subset of
+//! the seven derives, each with its own selected field, plus a `run` comparing *addresses*: without `forward` the
+//! derived impl must hand out the selected field's own storage, with `forward` / an index / a listed foreign type /
+//! iteration exactly what the field's own impl of the trait hands out. The field types come from the prelude
+//! (`Own<T>`): their own `AsRef<Own<T>>`/`Deref`/`Index`/`IntoIterator` impls answer from a *second* inner
+//! allocation (the twin), so "the field itself" and "what the field's impl returns" never coincide.
+use super::dm;
 use super::progprop::*;
+use super::proggen::CaseResult;
+use super::tok;
+use serde_json::json;
 
-fn build(_d: &mut Dice) -> GenCase {
-    let mut c = GenCase::new("pub fn run(o: &mut Out) { o.check(\"stub\", true); }".to_string());
-    c.nontrivial = false;
+pub const PRELUDE: &str = r#"
+#[derive(Debug, Clone, PartialEq)] pub struct A(pub u32);
+#[derive(Debug, Clone, PartialEq)] pub struct B(pub u32);
+#[derive(Debug, Clone, PartialEq)] pub struct C(pub u32);
+#[derive(Debug, Clone, Copy, PartialEq)] pub struct Key(pub u8);
+/// Every trait impl of `Own` answers from the twin (a second allocation), never from `self`.
+#[derive(Debug, Clone, PartialEq)]
+pub struct Own<T> { pub id: u32, pub v: Vec<T>, pub twin: Option<Box<Own<T>>> }
+impl<T: Clone> Own<T> {
+    pub fn new(id: u32, v: Vec<T>) -> Self { Own { id, v: v.clone(), twin: Some(Box::new(Own { id: id + 50, v, twin: None })) } }
+}
+impl<T> Own<T> {
+    pub fn tw(&self) -> &Own<T> { match &self.twin { Some(t) => t, None => self } }
+    pub fn tw_mut(&mut self) -> &mut Own<T> { if self.twin.is_some() { self.twin.as_mut().unwrap() } else { self } }
+}
+impl<T> AsRef<Own<T>> for Own<T> { fn as_ref(&self) -> &Own<T> { self.tw() } }
+impl<T> AsMut<Own<T>> for Own<T> { fn as_mut(&mut self) -> &mut Own<T> { self.tw_mut() } }
+impl<T> AsRef<[T]> for Own<T> { fn as_ref(&self) -> &[T] { &self.tw().v[..] } }
+impl<T> AsMut<[T]> for Own<T> { fn as_mut(&mut self) -> &mut [T] { &mut self.tw_mut().v[..] } }
+impl<T> AsRef<Vec<T>> for Own<T> { fn as_ref(&self) -> &Vec<T> { &self.tw().v } }
+impl<T> AsMut<Vec<T>> for Own<T> { fn as_mut(&mut self) -> &mut Vec<T> { &mut self.tw_mut().v } }
+impl<T> std::ops::Deref for Own<T> { type Target = Vec<T>; fn deref(&self) -> &Vec<T> { &self.tw().v } }
+impl<T> std::ops::DerefMut for Own<T> { fn deref_mut(&mut self) -> &mut Vec<T> { &mut self.tw_mut().v } }
+impl<T> std::ops::Index<usize> for Own<T> { type Output = T; fn index(&self, i: usize) -> &T { &self.tw().v[i] } }
+impl<T> std::ops::IndexMut<usize> for Own<T> { fn index_mut(&mut self, i: usize) -> &mut T { &mut self.tw_mut().v[i] } }
+impl<T> std::ops::Index<Key> for Own<T> { type Output = u32; fn index(&self, _: Key) -> &u32 { &self.tw().id } }
+impl<T> std::ops::IndexMut<Key> for Own<T> { fn index_mut(&mut self, _: Key) -> &mut u32 { &mut self.tw_mut().id } }
+/// all three forms visit the twin's elements in *reverse* storage order
+impl<T> IntoIterator for Own<T> {
+    type Item = T; type IntoIter = std::iter::Rev<std::vec::IntoIter<T>>;
+    fn into_iter(self) -> Self::IntoIter { match self.twin { Some(t) => t.v.into_iter().rev(), None => self.v.into_iter().rev() } }
+}
+impl<'a, T> IntoIterator for &'a Own<T> {
+    type Item = &'a T; type IntoIter = std::iter::Rev<std::slice::Iter<'a, T>>;
+    fn into_iter(self) -> Self::IntoIter { self.tw().v.iter().rev() }
+}
+impl<'a, T> IntoIterator for &'a mut Own<T> {
+    type Item = &'a mut T; type IntoIter = std::iter::Rev<std::slice::IterMut<'a, T>>;
+    fn into_iter(self) -> Self::IntoIter { self.tw_mut().v.iter_mut().rev() }
+}
+pub type OwnA = Own<A>;
+pub type OwnB = Own<B>;
+pub type VecA = Vec<A>;
+pub type BoxOwnA = Box<Own<A>>;
+/// (address, size in bytes) of the referent
+pub fn id<T: ?Sized>(r: &T) -> (usize, usize) { (r as *const T as *const u8 as usize, std::mem::size_of_val(r)) }
+fn desc(p: (usize, usize), fs: &[(usize, usize)]) -> String {
+    match fs.iter().position(|f| *f == p) {
+        Some(k) => format!("{p:?} = field #{k} itself"),
+        None => match fs.iter().position(|f| p.0 >= f.0 && p.0 < f.0 + f.1) {
+            Some(k) => format!("{p:?} = inside field #{k}"),
+            None => format!("{p:?} = outside the struct"),
+        },
+    }
+}
+pub fn ckid(o: &mut Out, what: &str, exp: (usize, usize), got: (usize, usize), fs: &[(usize, usize)]) {
+    o.eq(what, &desc(exp, fs), &desc(got, fs));
+}
+"#;
+
+/// capabilities: 1 = Deref (forward), 2 = Index, 4 = IntoIterator, 8 = AsRef/AsMut to other types
+struct Ty {
+    decl: &'static str,
+    inst: &'static str,
+    caps: u8,
+    elem: &'static str,
+    /// spellings of the type itself usable in `#[as_ref(..)]`: (spelling, is the derive documented to treat it as the field type)
+    selfs: &'static [(&'static str, bool)],
+    /// other types the field type implements AsRef/AsMut for: (as declared, instantiated)
+    foreign: &'static [(&'static str, &'static str)],
+}
+
+const TYS: [Ty; 7] = [
+    Ty { decl: "Own<A>", inst: "Own<A>", caps: 15, elem: "A", selfs: &[("Own<A>", true), ("OwnA", true), ("crate::Own<A>", true)], foreign: &[("[A]", "[A]"), ("Vec<A>", "Vec<A>")] },
+    Ty { decl: "Own<B>", inst: "Own<B>", caps: 15, elem: "B", selfs: &[("Own<B>", true), ("OwnB", true), ("crate::Own<B>", true)], foreign: &[("[B]", "[B]"), ("Vec<B>", "Vec<B>")] },
+    Ty { decl: "Vec<A>", inst: "Vec<A>", caps: 15, elem: "A", selfs: &[("Vec<A>", true), ("VecA", true), ("std::vec::Vec<A>", true)], foreign: &[("[A]", "[A]")] },
+    // generic field type: only the string-equal spelling counts as "the field's type" (as_ref.md, WARNING box)
+    Ty { decl: "Own<T>", inst: "Own<C>", caps: 15, elem: "C", selfs: &[("Own<T>", true), ("Own<T>", true), ("crate::Own<T>", false)], foreign: &[("[T]", "[C]"), ("Vec<T>", "Vec<C>")] },
+    Ty { decl: "Box<Own<A>>", inst: "Box<Own<A>>", caps: 9, elem: "A", selfs: &[("Box<Own<A>>", true), ("BoxOwnA", true), ("std::boxed::Box<Own<A>>", true)], foreign: &[("Own<A>", "Own<A>")] },
+    Ty { decl: "u64", inst: "u64", caps: 0, elem: "", selfs: &[], foreign: &[] },
+    Ty { decl: "String", inst: "String", caps: 0, elem: "", selfs: &[], foreign: &[] },
+];
+
+fn value_of(ty: usize, k: usize) -> String {
+    let b = 100 * (k + 1);
+    let e = TYS[ty].elem;
+    let elems = format!("vec![{e}({}), {e}({}), {e}({})]", b + 1, b + 2, b + 3);
+    match ty {
+        0 | 1 | 3 => format!("Own::new({b}, {elems})"),
+        2 => elems,
+        4 => format!("Box::new(Own::new({b}, {elems}))"),
+        5 => format!("{b}u64"),
+        _ => format!("String::from(\"s{b}\")"),
+    }
+}
+/// (statement writing through `r: &mut FieldTy`, condition on the field `s.F` that proves the write landed there)
+fn write_probe(ty: usize, f: &str) -> (String, String) {
+    match ty {
+        0 | 1 | 3 | 4 => ("r.id = 4242;".into(), format!("s.{f}.id == 4242")),
+        2 => ("r.push(A(4242));".into(), format!("s.{f}.last() == Some(&A(4242))")),
+        5 => ("*r = 4242;".into(), format!("s.{f} == 4242")),
+        _ => ("r.push_str(\"4242\");".into(), format!("s.{f}.ends_with(\"4242\")")),
+    }
+}
+
+#[derive(Clone, Debug)]
+struct Legacy {
+    sel: usize,
+    /// true: the selected field carries the attribute; false: all other fields carry `ignore`
+    mark: bool,
+    forward: bool,
+    /// forward / kinds written on the struct instead of the field
+    at_struct: bool,
+    /// bare `#[attr]` on the selected field although nothing requires it (single-field struct)
+    bare: bool,
+    with_mut: bool,
+    /// IntoIterator: listed kinds
+    kinds: Vec<usize>,
+}
+
+#[derive(Clone, Debug)]
+enum Conv {
+    Plain,
+    Bare,
+    Forward,
+    /// (spelling in the attribute, instantiated type, must be the field itself)
+    Types(Vec<(String, String, bool)>),
+}
+
+#[derive(Clone, Debug)]
+struct AsGroup {
+    entries: Vec<(usize, Conv)>,
+    skipped: Vec<(usize, &'static str)>,
+    at_struct: bool,
+}
+
+struct Model {
+    named: bool,
+    tys: Vec<usize>,
+    names: Vec<String>,
+    deref: Option<Legacy>,
+    index: Option<Legacy>,
+    iter: Option<Legacy>,
+    as_ref: Option<AsGroup>,
+    as_mut: Option<AsGroup>,
+}
+
+const NAMES: [&str; 4] = ["first", "r#type", "third", "last_one"];
+const KINDS: [&str; 3] = ["owned", "ref", "ref_mut"];
+
+fn gen_legacy(d: &mut Dice, tys: &[usize], cap: u8, can_forward: bool, is_iter: bool) -> Option<Legacy> {
+    let nf = tys.len();
+    let cands: Vec<usize> = (0..nf).filter(|k| cap == 0 || TYS[tys[*k]].caps & cap != 0).collect();
+    if cands.is_empty() {
+        return None;
+    }
+    let sel = cands[d.pick(cands.len())];
+    let forward = can_forward && TYS[tys[sel]].caps & 1 != 0 && d.chance(45);
+    let mark = nf == 1 || d.chance(55);
+    let kinds: Vec<usize> = if is_iter {
+        match d.weighted(&[3, 1, 2, 2, 3, 4, 1]) {
+            0 => vec![],
+            1 => vec![0],
+            2 => vec![1],
+            3 => vec![2],
+            4 => vec![1, 2],
+            5 => vec![0, 1, 2],
+            _ => vec![0, 2],
+        }
+    } else {
+        vec![]
+    };
+    // struct-level placement: single-field structs (tests/into_iterator.rs, deref.md) and, for forward, the
+    // ignore-the-others style (tests/deref.rs)
+    let at_struct = if is_iter { nf == 1 && !kinds.is_empty() && d.chance(50) } else { forward && (nf == 1 || !mark) && d.chance(50) };
+    let bare = nf == 1 && !at_struct && d.chance(30);
+    Some(Legacy { sel, mark, forward, at_struct, bare, with_mut: d.chance(70), kinds })
+}
+
+fn gen_types(d: &mut Dice, ty: usize) -> Vec<(String, String, bool)> {
+    let t = &TYS[ty];
+    let mut out = vec![];
+    if d.chance(60) {
+        let (sp, same) = t.selfs[d.weighted(&[4, 4, 2])];
+        out.push((sp.to_string(), t.inst.to_string(), same));
+    }
+    for (decl, inst) in t.foreign {
+        if d.chance(55) {
+            out.push((decl.to_string(), inst.to_string(), false));
+        }
+    }
+    if out.is_empty() {
+        let (sp, same) = t.selfs[1];
+        out.push((sp.to_string(), t.inst.to_string(), same));
+    }
+    if d.chance(50) {
+        out.reverse();
+    }
+    out
+}
+
+fn gen_as(d: &mut Dice, tys: &[usize]) -> AsGroup {
+    let nf = tys.len();
+    let conv_for = |d: &mut Dice, ty: usize| -> Conv {
+        if TYS[ty].caps & 8 == 0 {
+            return Conv::Bare;
+        }
+        match d.weighted(&[3, 2, 5]) {
+            0 => Conv::Bare,
+            1 => Conv::Forward,
+            _ => Conv::Types(gen_types(d, ty)),
+        }
+    };
+    if nf == 1 {
+        let c = if d.chance(25) { Conv::Plain } else { conv_for(d, tys[0]) };
+        let at_struct = matches!(c, Conv::Forward | Conv::Types(_)) && d.chance(50);
+        return AsGroup { entries: vec![(0, c)], skipped: vec![], at_struct };
+    }
+    if d.chance(30) {
+        // skip style: the un-skipped fields (pairwise distinct types) get a plain impl each
+        let mut kept: Vec<usize> = vec![];
+        let mut skipped = vec![];
+        for k in 0..nf {
+            // `impl<T> AsRef<Own<T>> for S<T>` and `impl<T> AsRef<Own<A>> for S<T>` would overlap
+            let clash = |a: usize, b: usize| a == b || (a == 3 && b < 2) || (b == 3 && a < 2);
+            if !kept.iter().any(|j| clash(tys[*j], tys[k])) && d.chance(60) {
+                kept.push(k);
+            } else {
+                skipped.push((k, if d.chance(50) { "skip" } else { "ignore" }));
+            }
+        }
+        if kept.is_empty() {
+            let k = d.pick(nf);
+            kept.push(k);
+            skipped.retain(|(j, _)| *j != k);
+        }
+        if skipped.is_empty() {
+            let k = kept.pop().unwrap();
+            skipped.push((k, "skip"));
+        }
+        return AsGroup { entries: kept.into_iter().map(|k| (k, Conv::Plain)).collect(), skipped, at_struct: false };
+    }
+    let sel = d.pick(nf);
+    let c = conv_for(d, tys[sel]);
+    let mut entries = vec![(sel, c.clone())];
+    if !matches!(c, Conv::Forward) && d.chance(35) {
+        // a second marked field of another type (AsRef<X> may be implemented once per X)
+        let taken: Vec<String> = match &c {
+            Conv::Types(l) => l.iter().map(|x| x.1.clone()).collect(),
+            _ => vec![TYS[tys[sel]].inst.to_string()],
+        };
+        if let Some(k) = (0..nf).find(|k| *k != sel && tys[*k] != tys[sel] && tys[*k] != 3 && tys[sel] != 3 && !taken.iter().any(|t| t == TYS[tys[*k]].inst)) {
+            entries.push((k, Conv::Bare));
+        }
+    }
+    AsGroup { entries, skipped: vec![], at_struct: false }
+}
+
+fn gen_model(d: &mut Dice) -> Model {
+    let nf = 1 + d.weighted(&[3, 4, 4, 3]);
+    let named = d.chance(50);
+    let mut tys: Vec<usize> = vec![];
+    for k in 0..nf {
+        if k > 0 && d.chance(65) {
+            tys.push(tys[k - 1]);
+        } else {
+            tys.push(d.weighted(&[6, 2, 4, 4, 2, 1, 1]));
+        }
+    }
+    let names: Vec<String> = (0..nf).map(|k| if named { NAMES[k].to_string() } else { k.to_string() }).collect();
+    let mut want: Vec<bool> = (0..5).map(|_| d.chance(55)).collect();
+    if !want.iter().any(|w| *w) {
+        want[d.pick(5)] = true;
+    }
+    let deref = if want[0] { gen_legacy(d, &tys, 0, true, false) } else { None };
+    let index = if want[1] { gen_legacy(d, &tys, 2, false, false) } else { None };
+    let iter = if want[2] { gen_legacy(d, &tys, 4, false, true) } else { None };
+    let as_ref = if want[3] { Some(gen_as(d, &tys)) } else { None };
+    let as_mut = if want[4] { Some(gen_as(d, &tys)) } else { None };
+    let mut m = Model { named, tys, names, deref, index, iter, as_ref, as_mut };
+    if m.deref.is_none() && m.index.is_none() && m.iter.is_none() && m.as_ref.is_none() && m.as_mut.is_none() {
+        m.as_ref = Some(gen_as(d, &m.tys));
+    }
+    m
+}
+
+impl Model {
+    fn generic(&self) -> bool {
+        self.tys.contains(&3)
+    }
+    fn legacy_attrs(&self, l: &Legacy, an: &str, struct_attrs: &mut Vec<String>, field_attrs: &mut [Vec<String>]) {
+        let nf = self.tys.len();
+        let args: String = if l.forward { "forward".into() } else { l.kinds.iter().map(|k| KINDS[*k]).collect::<Vec<_>>().join(", ") };
+        if l.at_struct && !args.is_empty() {
+            struct_attrs.push(format!("#[{an}({args})]"));
+        }
+        if !l.mark {
+            for k in 0..nf {
+                if k != l.sel {
+                    field_attrs[k].push(format!("#[{an}(ignore)]"));
+                }
+            }
+        }
+        if !l.at_struct && !args.is_empty() {
+            field_attrs[l.sel].push(format!("#[{an}({args})]"));
+        } else if !l.at_struct && (l.bare || (l.mark && nf > 1)) {
+            field_attrs[l.sel].push(format!("#[{an}]"));
+        } else if l.at_struct && l.mark && nf > 1 {
+            unreachable!("struct-level arguments are only combined with the ignore style or a single field");
+        }
+    }
+    fn as_attrs(&self, g: &AsGroup, an: &str, struct_attrs: &mut Vec<String>, field_attrs: &mut [Vec<String>]) {
+        for (k, c) in &g.entries {
+            let a = match c {
+                Conv::Plain => continue,
+                Conv::Bare => format!("#[{an}]"),
+                Conv::Forward => format!("#[{an}(forward)]"),
+                Conv::Types(l) => format!("#[{an}({})]", l.iter().map(|x| x.0.clone()).collect::<Vec<_>>().join(", ")),
+            };
+            if g.at_struct {
+                struct_attrs.push(a);
+            } else {
+                field_attrs[*k].push(a);
+            }
+        }
+        for (k, w) in &g.skipped {
+            field_attrs[*k].push(format!("#[{an}({w})]"));
+        }
+    }
+    fn derives(&self) -> Vec<&'static str> {
+        let mut v = vec![];
+        if let Some(l) = &self.deref {
+            v.push("Deref");
+            if l.with_mut {
+                v.push("DerefMut");
+            }
+        }
+        if let Some(l) = &self.index {
+            v.push("Index");
+            if l.with_mut {
+                v.push("IndexMut");
+            }
+        }
+        if self.iter.is_some() {
+            v.push("IntoIterator");
+        }
+        if self.as_ref.is_some() {
+            v.push("AsRef");
+        }
+        if self.as_mut.is_some() {
+            v.push("AsMut");
+        }
+        v
+    }
+    fn item(&self, with_derives: bool) -> String {
+        let nf = self.tys.len();
+        let mut sa: Vec<String> = vec![];
+        let mut fa: Vec<Vec<String>> = vec![vec![]; nf];
+        if with_derives {
+            if let Some(l) = &self.deref {
+                self.legacy_attrs(l, "deref", &mut sa, &mut fa);
+                if l.with_mut {
+                    self.legacy_attrs(l, "deref_mut", &mut sa, &mut fa);
+                }
+            }
+            if let Some(l) = &self.index {
+                self.legacy_attrs(l, "index", &mut sa, &mut fa);
+                if l.with_mut {
+                    self.legacy_attrs(l, "index_mut", &mut sa, &mut fa);
+                }
+            }
+            if let Some(l) = &self.iter {
+                self.legacy_attrs(l, "into_iterator", &mut sa, &mut fa);
+            }
+            if let Some(g) = &self.as_ref {
+                self.as_attrs(g, "as_ref", &mut sa, &mut fa);
+            }
+            if let Some(g) = &self.as_mut {
+                self.as_attrs(g, "as_mut", &mut sa, &mut fa);
+            }
+        }
+        let mut s = String::new();
+        if with_derives {
+            let ds: Vec<String> = self.derives().iter().map(|x| format!("derive_more::{x}")).collect();
+            s.push_str(&format!("#[derive(Debug, Clone, {})]\n", ds.join(", ")));
+        } else {
+            s.push_str("#[derive(Debug, Clone)]\n");
+        }
+        for a in &sa {
+            s.push_str(a);
+            s.push('\n');
+        }
+        let g = if self.generic() { "<T>" } else { "" };
+        let fld = |k: usize| {
+            let attrs: String = fa[k].iter().map(|a| format!("{a} ")).collect();
+            if self.named {
+                format!("    {attrs}pub {}: {},\n", self.names[k], TYS[self.tys[k]].decl)
+            } else {
+                format!("    {attrs}pub {},\n", TYS[self.tys[k]].decl)
+            }
+        };
+        let fields: String = (0..nf).map(fld).collect();
+        if self.named {
+            s.push_str(&format!("pub struct S{g} {{\n{fields}}}\n"));
+        } else {
+            s.push_str(&format!("pub struct S{g}(\n{fields});\n"));
+        }
+        s
+    }
+    fn support(&self) -> String {
+        let nf = self.tys.len();
+        let vals: Vec<String> = (0..nf).map(|k| value_of(self.tys[k], k)).collect();
+        let ctor = if self.named {
+            format!("S {{ {} }}", (0..nf).map(|k| format!("{}: {}", self.names[k], vals[k])).collect::<Vec<_>>().join(", "))
+        } else {
+            format!("S({})", vals.join(", "))
+        };
+        let sc = if self.generic() { "S<C>" } else { "S" };
+        format!(
+            "pub type SC = {sc};\npub fn mk() -> SC {{ {ctor} }}\npub fn flds(s: &SC) -> Vec<(usize, usize)> {{ vec![{}] }}\n",
+            (0..nf).map(|k| format!("id(&s.{})", self.names[k])).collect::<Vec<_>>().join(", ")
+        )
+    }
+}
+
+/// reference kinds of the `IntoIterator` impls the expansion of the same tree declares
+fn discover_iter_kinds(item: &str) -> Vec<usize> {
+    let mut out = vec![];
+    let Ok(di) = syn::parse_str::<syn::DeriveInput>(item) else { return out };
+    let Some(d) = dm::Derive::by_name("IntoIterator") else { return out };
+    let dm::Outcome::Ok(ts) = dm::expand(d, &di) else { return out };
+    let Ok(impls) = tok::impls(&ts) else { return out };
+    for imp in impls {
+        let k = match &*imp.self_ty {
+            syn::Type::Reference(r) if r.mutability.is_some() => 2,
+            syn::Type::Reference(_) => 1,
+            _ => 0,
+        };
+        if !out.contains(&k) {
+            out.push(k);
+        }
+    }
+    out
+}
+
+fn build(d: &mut Dice) -> GenCase {
+    let m = gen_model(d);
+    render(&m)
+}
+
+fn render(m: &Model) -> GenCase {
+    let item = m.item(true);
+    let mut run = String::new();
+    let mut labels: Vec<String> = m.derives().iter().map(|x| format!("derive={x}")).collect();
+    let nf = m.tys.len();
+    let f = |k: usize| m.names[k].clone();
+    let ft = |k: usize| TYS[m.tys[k]].inst;
+    let mut any_forward = false;
+    let mut any_list = false;
+    let mut selected: Vec<usize> = vec![];
+
+    if let Some(l) = &m.deref {
+        let (k, fk, t) = (l.sel, f(l.sel), ft(l.sel));
+        selected.push(k);
+        if l.forward {
+            any_forward = true;
+            labels.push("deref_forward".into());
+            run.push_str(&format!(
+                "    {{\n        let s = mk();\n        ckid(o, \"Deref with forward returns what the selected field's own Deref returns\", id(<{t} as std::ops::Deref>::deref(&s.{fk})), id(&*s), &flds(&s));\n    }}\n"
+            ));
+            if l.with_mut {
+                run.push_str(&format!(
+                    "    {{\n        let mut s = mk();\n        let got = id(&mut *s);\n        let exp = id(<{t} as std::ops::DerefMut>::deref_mut(&mut s.{fk}));\n        ckid(o, \"DerefMut with forward returns what the selected field's own DerefMut returns\", exp, got, &flds(&s));\n    }}\n"
+                ));
+            }
+        } else {
+            run.push_str(&format!(
+                "    {{\n        let s = mk();\n        let r: &{t} = &*s;\n        ckid(o, \"Deref without forward returns the selected field's own storage\", id(&s.{fk}), id(r), &flds(&s));\n    }}\n"
+            ));
+            if l.with_mut {
+                let (w, c) = write_probe(m.tys[k], &fk);
+                run.push_str(&format!(
+                    "    {{\n        let mut s = mk();\n        let got = id(&mut *s);\n        ckid(o, \"DerefMut without forward returns the selected field's own storage\", id(&s.{fk}), got, &flds(&s));\n        {{ let r: &mut {t} = &mut *s; {w} }}\n        o.check(\"a write through DerefMut is visible in the selected field\", {c});\n    }}\n"
+                ));
+            }
+        }
+    }
+    if let Some(l) = &m.index {
+        let (k, fk, t) = (l.sel, f(l.sel), ft(l.sel));
+        selected.push(k);
+        let e = TYS[m.tys[k]].elem;
+        let idxs: Vec<(&str, &str)> = if m.tys[k] == 2 { vec![("usize", "1usize"), ("std::ops::Range<usize>", "0..2")] } else { vec![("usize", "1usize"), ("Key", "Key(0)")] };
+        for (it, iv) in idxs {
+            run.push_str(&format!(
+                "    {{\n        let s = mk();\n        ckid(o, \"Index returns what the selected field's own Index returns\", id(<{t} as std::ops::Index<{it}>>::index(&s.{fk}, {iv})), id(&s[{iv}]), &flds(&s));\n    }}\n"
+            ));
+            if l.with_mut {
+                run.push_str(&format!(
+                    "    {{\n        let mut s = mk();\n        let got = id(&mut s[{iv}]);\n        let exp = id(<{t} as std::ops::IndexMut<{it}>>::index_mut(&mut s.{fk}, {iv}));\n        ckid(o, \"IndexMut returns what the selected field's own IndexMut returns\", exp, got, &flds(&s));\n    }}\n"
+                ));
+            }
+        }
+        if l.with_mut {
+            run.push_str(&format!(
+                "    {{\n        let mut s = mk();\n        s[1usize] = {e}(4242);\n        o.check(\"a write through IndexMut is visible through the selected field's own Index\", <{t} as std::ops::Index<usize>>::index(&s.{fk}, 1usize) == &{e}(4242));\n    }}\n"
+            ));
+        }
+    }
+    let mut iter_extra = false;
+    if let Some(l) = &m.iter {
+        let (k, fk, t) = (l.sel, f(l.sel), ft(l.sel));
+        selected.push(k);
+        let expected: Vec<usize> = if l.kinds.is_empty() { vec![0] } else { l.kinds.clone() };
+        let found = discover_iter_kinds(&item);
+        for kind in 0..3 {
+            if !expected.contains(&kind) && !found.contains(&kind) {
+                continue;
+            }
+            if !expected.contains(&kind) {
+                iter_extra = true;
+            }
+            match kind {
+                0 => run.push_str(&format!(
+                    "    {{\n        let got: Vec<_> = <SC as IntoIterator>::into_iter(mk()).collect();\n        let exp: Vec<_> = <{t} as IntoIterator>::into_iter(mk().{fk}).collect();\n        o.eq(\"owned iteration yields the elements of the selected field's own into_iter() in the same order\", &format!(\"{{exp:?}}\"), &format!(\"{{got:?}}\"));\n        o.check(\"owned iteration is not empty\", got.len() == 3);\n    }}\n"
+                )),
+                1 => run.push_str(&format!(
+                    "    {{\n        let s = mk();\n        let got: Vec<_> = <&SC as IntoIterator>::into_iter(&s).map(|x| id(x)).collect();\n        let exp: Vec<_> = <&{t} as IntoIterator>::into_iter(&s.{fk}).map(|x| id(x)).collect();\n        o.eq(\"shared iteration yields the very elements of the selected field's own (&field).into_iter() in the same order\", &format!(\"{{exp:?}}\"), &format!(\"{{got:?}}\"));\n        o.check(\"shared iteration is not empty\", got.len() == 3);\n    }}\n"
+                )),
+                _ => run.push_str(&format!(
+                    "    {{\n        let mut s = mk();\n        let got: Vec<_> = <&mut SC as IntoIterator>::into_iter(&mut s).map(|x| id(&*x)).collect();\n        let exp: Vec<_> = <&mut {t} as IntoIterator>::into_iter(&mut s.{fk}).map(|x| id(&*x)).collect();\n        o.eq(\"mutable iteration yields the very elements of the selected field's own (&mut field).into_iter() in the same order\", &format!(\"{{exp:?}}\"), &format!(\"{{got:?}}\"));\n        o.check(\"mutable iteration is not empty\", got.len() == 3);\n    }}\n"
+                )),
+            }
+        }
+        if expected.len() + usize::from(iter_extra) >= 2 || found.len() >= 2 {
+            labels.push("into_iterator_several_forms".into());
+        }
+    }
+    for (g, mutable) in [(&m.as_ref, false), (&m.as_mut, true)] {
+        let Some(g) = g else { continue };
+        let tr = if mutable { "AsMut" } else { "AsRef" };
+        let meth = if mutable { "as_mut" } else { "as_ref" };
+        if !g.skipped.is_empty() {
+            labels.push("as_skip_style".into());
+        }
+        for (k, c) in &g.entries {
+            let (k, fk, t) = (*k, f(*k), ft(*k));
+            selected.push(k);
+            // (target type, must be the field itself)
+            let targets: Vec<(String, bool)> = match c {
+                Conv::Plain | Conv::Bare => vec![(t.to_string(), true)],
+                Conv::Forward => {
+                    any_forward = true;
+                    labels.push("as_forward".into());
+                    let ty = &TYS[m.tys[k]];
+                    let mut v: Vec<(String, bool)> = ty.foreign.iter().map(|x| (x.1.to_string(), false)).collect();
+                    if m.tys[k] != 4 {
+                        // Own<T>: AsRef<Own<T>> (the twin), Vec<A>: AsRef<Vec<A>>
+                        v.push((t.to_string(), false));
+                    }
+                    v
+                }
+                Conv::Types(l) => {
+                    any_list = true;
+                    for x in l {
+                        if x.1 == t && x.2 && x.0 != TYS[m.tys[k]].decl {
+                            labels.push("as_list_field_type_via_alias_or_path".into());
+                        } else if x.1 == t && x.2 {
+                            labels.push("as_list_field_type_verbatim".into());
+                        } else if x.1 == t {
+                            labels.push("as_list_generic_field_type_other_spelling".into());
+                        } else {
+                            labels.push("as_list_foreign_type".into());
+                        }
+                    }
+                    l.iter().map(|x| (x.1.clone(), x.2)).collect()
+                }
+            };
+            for (x, itself) in targets {
+                let (exp_ref, exp_mut, what) = if itself {
+                    (format!("id(&s.{fk})"), format!("id(&s.{fk})"), format!("{tr}<field type> returns the selected field's own storage"))
+                } else {
+                    (
+                        format!("id(<{t} as AsRef<{x}>>::as_ref(&s.{fk}))"),
+                        format!("id(<{t} as AsMut<{x}>>::as_mut(&mut s.{fk}))"),
+                        format!("{tr}<X> (forward / listed X) returns what the selected field's own {tr}<X> returns"),
+                    )
+                };
+                if !mutable {
+                    run.push_str(&format!(
+                        "    {{\n        let s = mk();\n        let r: &{x} = <SC as AsRef<{x}>>::{meth}(&s);\n        ckid(o, {what:?}, {exp_ref}, id(r), &flds(&s));\n    }}\n"
+                    ));
+                } else {
+                    run.push_str(&format!(
+                        "    {{\n        let mut s = mk();\n        let got = id(<SC as AsMut<{x}>>::{meth}(&mut s));\n        let exp = {exp_mut};\n        ckid(o, {what:?}, exp, got, &flds(&s));\n"
+                    ));
+                    if itself {
+                        let (w, cnd) = write_probe(m.tys[k], &fk);
+                        run.push_str(&format!(
+                            "        {{ let r: &mut {x} = <SC as AsMut<{x}>>::{meth}(&mut s); {w} }}\n        o.check(\"a write through AsMut<field type> is visible in the selected field\", {cnd});\n"
+                        ));
+                    }
+                    run.push_str("    }\n");
+                }
+            }
+        }
+    }
+
+    let mut body = String::new();
+    body.push_str(&item);
+    body.push_str(&m.support());
+    body.push_str(&format!("#[allow(unused_mut)]\npub fn run(o: &mut Out) {{\n{run}}}\n"));
+
+    let same_type_neighbours = (1..nf).any(|k| m.tys[k] == m.tys[k - 1]);
+    let equal_types = (0..nf).any(|i| (0..i).any(|j| m.tys[i] == m.tys[j]));
+    let sel_has_equal_neighbour = selected.iter().any(|k| (0..nf).any(|j| j != *k && m.tys[j] == m.tys[*k]));
+    if same_type_neighbours {
+        labels.push("neighbouring_fields_same_type".into());
+    }
+    if sel_has_equal_neighbour {
+        labels.push("selected_field_has_equal_typed_sibling".into());
+    }
+    if selected.iter().any(|k| *k > 0) {
+        labels.push("selected_not_first".into());
+    }
+    {
+        let mut s = selected.clone();
+        s.sort();
+        s.dedup();
+        if s.len() >= 2 {
+            labels.push("derives_select_different_fields".into());
+        }
+    }
+    if nf == 1 {
+        labels.push("single_field".into());
+    }
+    if m.generic() {
+        labels.push("generic".into());
+    }
+    if m.named {
+        labels.push("named_struct".into());
+    }
+    if any_forward {
+        labels.push("forward".into());
+    }
+    if any_list {
+        labels.push("type_list".into());
+    }
+    for l in [&m.deref, &m.index, &m.iter].into_iter().flatten() {
+        if !l.mark {
+            labels.push("ignore_the_others_style".into());
+        }
+        if l.at_struct {
+            labels.push("struct_level_attribute".into());
+        }
+    }
+    if iter_extra {
+        labels.push("into_iterator_form_read_from_expansion".into());
+    }
+    labels.sort();
+    labels.dedup();
+    let mut c = GenCase::new(body);
+    c.labels = labels;
+    c.nontrivial = equal_types || any_forward || any_list;
+    c.control = Some(format!("{}{}", m.item(false), m.support()));
+    c.meta = json!({"fields": nf});
     c
+}
+
+fn classify(_c: &GenCase, _r: &CaseResult, _f: &Finding) -> Option<String> {
+    None
 }
 
 pub fn prop() -> DiceProp {
     DiceProp {
         crate_name: "gen_c14",
-        prelude: String::new(),
+        prelude: PRELUDE.to_string(),
         crate_attrs: String::new(),
         nightly: false,
         check_only: false,
-        ndice: 64,
-        quick: (10, 1),
-        thorough: (10, 1),
+        ndice: 200,
+        quick: (500, 1),
+        thorough: (1200, 6),
         build,
         fixed: no_fixed,
-        classify: no_classify,
-        rule: "stub".into(),
-        assumptions: vec![],
-        floors: vec![],
+        classify,
+        rule: "tuple / named struct with 1..4 fields (65 % of the neighbours repeat the previous field's type; types `Own<A>`, `Own<B>`, `Own<T>`, `Vec<A>`, `Box<Own<A>>`, fillers) deriving a subset of Deref(+DerefMut), Index(+IndexMut), IntoIterator, AsRef, AsMut, each with its own selected field expressed by `#[attr]` on it or `#[attr(ignore)]` on the others (AsRef/AsMut: marked fields, skip style), `forward` on field or struct, type lists containing the field's own type verbatim / through an alias / through another path and foreign types, owned/ref/ref_mut; oracle: (address, size) of what the derived impl returns == the selected field's own storage (no forward; listed type == field type) resp. == what `<FieldTy as Trait>::method(&s.field)` returns (forward, index, listed foreign type), element addresses/values and order for the three iteration forms, writes through the mutable forms visible in the field; `Own`'s own impls answer from a second allocation so the two expectations never coincide; non-trivial = two fields of equal type, or forward, or a type list; distinct by program text".into(),
+        assumptions: vec![
+            "IntoIterator forms that are not listed in the attribute but present in the expansion (e.g. `owned` next to a lone `ref`) are checked too, their existence is not asserted".into(),
+        ],
+        floors: vec![
+            ("neighbouring_fields_same_type".into(), 0.4),
+            ("selected_field_has_equal_typed_sibling".into(), 0.4),
+            ("selected_not_first".into(), 0.3),
+            ("forward".into(), 0.2),
+            ("type_list".into(), 0.2),
+            ("as_list_field_type_via_alias_or_path".into(), 0.08),
+            ("as_list_field_type_verbatim".into(), 0.05),
+            ("as_list_foreign_type".into(), 0.15),
+            ("generic".into(), 0.15),
+            ("ignore_the_others_style".into(), 0.15),
+            ("into_iterator_several_forms".into(), 0.1),
+            ("derive=Deref".into(), 0.3),
+            ("derive=DerefMut".into(), 0.2),
+            ("derive=Index".into(), 0.3),
+            ("derive=IndexMut".into(), 0.2),
+            ("derive=IntoIterator".into(), 0.3),
+            ("derive=AsRef".into(), 0.3),
+            ("derive=AsMut".into(), 0.3),
+        ],
         shards: 0,
     }
 }
